@@ -1670,7 +1670,7 @@ print(json.dumps(res))
     raw_ = int.from_bytes(rd(ctypes.addressof(pp_) + smem["off"], 8), "little")
     dim["pickle_particle_pointers_cleared"] += 1
     if raw_ != 0:
-        c.violation(store_key("Particle", "sim"), "an unpickled Particle still carries the simulation pointer %#x of the process that pickled it in struct reb_particle.sim (c and ap are cleared)" % raw_,
+        c.violation("unpickled-particle-sim-pointer-not-null", "an unpickled Particle still carries the simulation pointer %#x of the process that pickled it in struct reb_particle.sim (c and ap are cleared)" % raw_,
                     {"python": "p = pickle.loads(pickle.dumps(sim.particles[1])); bool(p._sim)", "c_bytes": raw_, "instance_dict": {k_: str(v_) for k_, v_ in vars(pp_).items()}})
     del sim
 
